@@ -76,7 +76,12 @@ def orders_from_listing(world, res):
 
 def orders_from_events(world, res):
     out = {}
-    for e in sorted(res['events'], key=lambda e: (e.get('ns', 0))):
+    evs = sorted(res['events'], key=lambda e: (e.get('ns', 0)))
+    # several runs in one process: the last run is the observation
+    bounds = [k for k, e in enumerate(evs) if e['e'] == 'RunBoundary']
+    if len(bounds) >= 2:
+        evs = evs[bounds[-2] + 1:bounds[-1]]
+    for e in evs:
         if e['e'] == 'T' and e.get('ph') == 'setUp':
             l = layer_of(world, e['t']) or 'UNIT'
             if e['t'] not in out.setdefault(l, []):
@@ -91,8 +96,12 @@ def bundle(bid, rng, seed, tier):
     runs = []
     sargs = ['--shuffle'] + (['--shuffle-seed=%d' % seed] if seed is not None else [])
 
-    def add(mode, kind, args, world=w, py=None):
-        runs.append({'bid': bid, 'mode': mode, 'kind': kind, 'args': args, 'world': world, 'py': py})
+    if rng.random() < 0.5:
+        w.setdefault('env', {})['import_random'] = rng.choice([1, 2, 5])
+
+    def add(mode, kind, args, world=w, py=None, times=0):
+        runs.append({'bid': bid, 'mode': mode, 'kind': kind, 'args': args, 'world': world, 'py': py,
+                     'times': times})
     add('discover', 'inproc', ['--list-tests'])
     if seed is not None:
         add('list', 'inproc', sargs + ['--list-tests'])
@@ -100,6 +109,9 @@ def bundle(bid, rng, seed, tier):
         add('j', 'cli', sargs + ['-j', str(rng.choice([2, 3]))])
         # listing while -j is given (no child is started for a listing)
         add('j:list', 'inproc', sargs + ['--list-tests', '-j', str(rng.choice([2, 3]))])
+        # the second of two runs in one process (test modules already imported,
+        # whatever the first run left in the process is there)
+        add('second-run', 'cli', sargs, times=2)
         # "on every supported Python version": the other CPythons of the sandbox
         vers = sorted(runlib.OTHER_PYTHONS)
         for ver in (vers if tier != 'quick' else rng.sample(vers, min(2, len(vers)))):
@@ -118,6 +130,9 @@ def bundle(bid, rng, seed, tier):
             add('resume', 'cli', sargs, w2)
     else:
         add('noseed:j', 'cli', sargs + ['-j', '2'])
+        # two clock-seeded runs in one process: the second one's reported seed
+        # must reproduce what its children ran
+        add('noseed:second-run:j', 'cli', sargs + ['-j', '2'], times=2)
         add('noseed:seq', 'inproc', sargs)
         lnames = list(w['layers'])
         if lnames:
@@ -246,6 +261,8 @@ def execute(runs):
         py = runlib.OTHER_PYTHONS[ver] if ver else None
         for r, res in zip(inproc, runlib.run_inproc_many(jobs, python=py)):
             out[id(r)] = res
-    for r, res in zip(cli, runlib.run_cli_many([(r['world'], r['args'], {'timeout': 120}) for r in cli])):
+    for r, res in zip(cli, runlib.run_cli_many([(r['world'], r['args'],
+                                                 {'timeout': 120, 'env_extra': {'VERIF_RUN_TIMES': str(r.get('times') or 0)}})
+                                                for r in cli])):
         out[id(r)] = res
     return out
